@@ -819,6 +819,8 @@ class Optimizer(Logger, Citable):
 
         weight_comb = []
 
+        sample_index = []
+
         if len(self.derived_names) == 0:
             return
 
@@ -836,26 +838,28 @@ class Optimizer(Logger, Citable):
             weight = weights[idx]
             self.update_model(parameters)
             self._model.initialize_profiles()
+            sample_index.append(idx)
             for p, v in zip(self.derived_names, self.derived_values):
                 derived_param[p][0].append(v)
                 derived_param[p][1].append(weight)
 
         result_dict = {}
 
-        sorted_weights = weights.argsort()
+        # Position of every gathered entry in the sample array
+        all_index = np.array(mpi.allreduce(sample_index, op='SUM'),
+                             dtype=np.int64)
 
         for param, (trace, w) in derived_param.items():
 
-            # I cant remember why this works
-            all_trace = np.array(mpi.allreduce(trace, op='SUM'))
-            # I cant remember why this works
-            all_weight = np.array(mpi.allreduce(w, op='SUM'))
+            gathered_trace = np.array(mpi.allreduce(trace, op='SUM'))
+            gathered_weight = np.array(mpi.allreduce(w, op='SUM'))
 
-            all_weight_sort = all_weight.argsort()
-
-            # Sort them into the right order
-            all_weight[sorted_weights] = all_weight[all_weight_sort]
-            all_trace[sorted_weights] = all_trace[all_weight_sort]
+            # Put them back into sample order (weights may be tied,
+            # so they cannot be used to identify the samples)
+            all_trace = np.empty_like(gathered_trace)
+            all_weight = np.empty_like(gathered_weight)
+            all_weight[all_index] = gathered_weight
+            all_trace[all_index] = gathered_trace
 
             q_16, q_50, q_84 = \
                 quantile_corner(np.array(all_trace), [0.16, 0.5, 0.84],
